@@ -2,8 +2,7 @@
 // ---- Closing trait-contract assumptions, AdjacencyListWeighted part 2: the methods under contract in unit weighted_more ----
 // (part 1 - wf, order, contiguous_order, has_arc, vertices, outdegree, out_neighbors_weighted - is in unit rep_trait_contracts;
 // the `tc_*` predicates are the shared text units/inc/rep_trait_contracts_tc.inc.rs, proved equal to the Dg / Dgo ensures
-// texts there.  AdjacencyMap / map_more is in unit rep_trait_contracts_map: loaded next to weighted_more's fragment, map_more's
-// `is_regular` proof no longer goes through.)
+// texts there.  The map_more methods of AdjacencyMap are compared in unit rep_trait_contracts, module map_side.)
 
 mod weighted_more_side {
 use super::*;
